@@ -365,7 +365,37 @@ def r6_cdn_download(ctx):
     ctx.floor(rule, n, 2, "CdnClient download routines with a cache")
 
 
+LOSSY = re.compile(r"reqwest::.*Response::text(_with_charset)?$|\bString::from_utf8_lossy$|to_string_lossy$|\bfrom_utf8_unchecked$")
+
+
+def r8_parse_sees_the_bytes(ctx):
+    """a malformed answer is an error, not a well-formed answer: the document parser is given the bytes that came off the wire. A lossy
+    decoder in front of it (Response::text, from_utf8_lossy) turns invalid input into valid text with replacement characters, which then parses,
+    is returned as Ok and cached"""
+    rule = "C13.R8"
+    ctx.rule(rule, "in the protocol clients the argument of BpsvDocument::parse / parse_v1_mime* does not derive from a lossy text decoder")
+    n = 0
+    for b in ctx.prog.bodies.values():
+        if b.krate != "cascette_protocol" or not re.search(r"/client/|/transport/|mime_parser|v1_mime", b.file or ""):
+            continue
+        for c in b.calls:
+            if c.bb not in b.live_blocks() or not re.search(r"BpsvDocument::parse$|bpsv::.*::parse$|parse_v1_mime_response$|parse_v1_mime_to_bpsv$|CascFormat>?::parse$", c.name):
+                continue
+            if not c.args or op_local(c.args[0]) is None:
+                continue
+            n += 1
+            ctx.saw(b)
+            sl = Slice(b, [op_local(c.args[0])], transparent=True)
+            lossy = [x for x in sl.calls if LOSSY.search(x.name) or LOSSY.search(x.orig_name or "")]
+            # through an awaited future: the text() future is created by a call and polled
+            ctx.check(not lossy, rule, [b.id, "parse-input-not-lossy", c.name.split("::")[-1]], "the parser sees the wire bytes",
+                      "%s hands %s a buffer that went through %s: invalid UTF-8 in the answer is replaced instead of rejected, so a malformed answer is returned "
+                      "as well-formed and cached for the TTL" % (ctx._stable(b.id), c.name.split("::")[-1], lossy[0].name.split("::")[-1] if lossy else ""), c.loc())
+    ctx.floor(rule, n, 2, "document parse calls in the protocol clients")
+
+
 def run(ctx):
+    r8_parse_sees_the_bytes(ctx)
     # "only good answers are cached": the Ribbit answer that reaches the cache is the one the V1-MIME parser accepted; its epilogue
     # checksum is the only integrity gate on that path (the signature is parsed, not verified)
     from . import c07
